@@ -285,7 +285,9 @@ class DelayedS3Writer(S3Limits):
             mpu.uploadId = uploadId
             return mpu
 
-        lock = DLock(self._build_name("MPULock"), client)
+        # no client argument: recent distributed.Lock takes (name, scheduler_rpc, loop)
+        # and, like older ones given no client, finds the current client itself
+        lock = DLock(self._build_name("MPULock"))
         with lock:
             uploadId = _safe_get(shared_state, 0.1)
             if uploadId is not None:
